@@ -17,7 +17,7 @@ def build_probes(verif, repo):
     return p.returncode == 0, (p.stdout + p.stderr)[-2000:]
 
 
-def run_probe(verif, name, timeout=120):
+def _run_probe_once(verif, name, timeout=120):
     exe = os.path.join(verif, "replay", "target", "release", "probe")
     try:
         p = subprocess.run([exe, name], capture_output=True, text=True, timeout=timeout)
@@ -40,6 +40,22 @@ def run_probe(verif, name, timeout=120):
             res["disagrees"] = True
             res["input"] = "(see stderr: the real code panicked)"
     return res
+
+
+def run_probe(verif, name, timeout=120):
+    """A probe that reports a failing input is run twice more: the report stands only if every run reports a failing
+    input (several probes drive real tasks and timers; a machine under load must not turn a slow run into an alarm).
+    A hang counts as a failing observation only if it repeats."""
+    res = _run_probe_once(verif, name, timeout)
+    if not res.get("disagrees"):
+        return res
+    again = [_run_probe_once(verif, name, timeout) for _ in range(2)]
+    if all(r.get("disagrees") for r in again):
+        res["confirmed_runs"] = 3
+        return res
+    ok = [r for r in again if not r.get("disagrees")][0]
+    ok["flaky_disagreement_discarded"] = {k: res.get(k) for k in ("input", "observed", "expected", "error")}
+    return ok
 
 
 def replay_violation(verif, repo, pid, cfg, ob, results):
